@@ -222,7 +222,7 @@ def run_property(prop, tier, seed, workers=None, budget=None):
                 phase_paths(run, pool)
                 phase_crash(run, pool, P.crash_programs_c17(seed), B["crash_jobs"][prop])
                 if not run.violations and not run.harness:
-                    phase_crash_lines(run, pool, P.crash_programs_c17(seed), 24 if tier == "quick" else 10**6, 40 if tier == "quick" else 200)
+                    phase_crash_lines(run, pool, P.crash_programs_c17(seed), 24 if tier == "quick" else 10**6, 120 if tier == "quick" else 400)
                 if not run.violations and not run.harness:
                     phase_threads(run, pool)
             else:
